@@ -256,7 +256,10 @@ def replay(case):
     return sim.info()
 
 
-def machine(record):
+def machine(record, focus=None):
+    add_states = ['M'] if focus == 'mapper' else ['T', 'T', 'O', 'M']
+    add_indices = [0, 1, 2, 7] if focus == 'mapper' else INDICES
+
     class StoreMachine(RuleBasedStateMachine):
         def __init__(self):
             super().__init__()
@@ -269,8 +272,11 @@ def machine(record):
         def live(self, state):
             return sorted(i for i in self.sim.model[state] if i != '_deleted')
 
-        @rule(state=st.sampled_from(['T', 'T', 'O', 'M']), idx=st.sampled_from(INDICES), parent=st.integers(0, 2))
+        @precondition(lambda self: self.sim is not None and (focus != 'mapper' or len(self.live('M')) < 3))
+        @rule(state=st.sampled_from(add_states), idx=st.sampled_from(add_indices), parent=st.integers(0, 2))
         def add(self, state, idx, parent):
+            if focus == 'mapper' and idx in self.live('M'):
+                return          # keep the maps alive: allocation interleaves between several live maps
             self.sim.step(['add', state, idx, parent])
 
         @precondition(lambda self: self.sim and (self.live('T') or self.live('O')))
@@ -314,6 +320,8 @@ def machine(record):
 
 def subs(tier):
     return [
+        Sub('mapper', replay, machine=lambda record: machine(record, 'mapper'), examples={'quick': 500, 'thorough': 30000}, steps=40,
+            doc='histories concentrated on group-index maps: several live maps with interleaved add_map / get_map / flush'),
         Sub('machine', replay, machine=machine, examples={'quick': 1500, 'thorough': 60000}, steps=50,
             doc='rule-based histories on MemoryStore / StoreManager vs dict model; all live slots re-read after every step'),
     ]
